@@ -146,9 +146,14 @@ struct Store {
     /// The causality of the thread when it stores the value.
     happens_before: VersionVec,
 
-    /// Tracks the modification order. Order is tracked as a partially-ordered
-    /// set.
-    modification_order: VersionVec,
+    /// Tracks the modification order: the set of tracked stores (bit `i` is
+    /// the store in slot `i`) known to be ordered before this one. The
+    /// relation is kept transitively closed.
+    mo_before: u8,
+
+    /// When the store is the write half of a rmw operation, the slot of the
+    /// store it read from. The two are adjacent in the modification order.
+    rmw_source: Option<u8>,
 
     /// Manages causality transfers between threads
     sync: Synchronize,
@@ -290,6 +295,7 @@ impl<T: Numeric> Atomic<T> {
                 Synchronize::new(),
                 val.into_u64(),
                 ordering,
+                None,
             );
         })
     }
@@ -427,7 +433,7 @@ impl State {
         // creation of this atomic cell.
         //
         // This is verified using `cell`.
-        state.store(threads, Synchronize::new(), value, Ordering::Release);
+        state.store(threads, Synchronize::new(), value, Ordering::Release, None);
 
         state
     }
@@ -459,28 +465,36 @@ impl State {
         mut sync: Synchronize,
         value: u64,
         ordering: Ordering,
+        rmw_source: Option<usize>,
     ) {
         let index = index(self.cnt);
 
-        // Increment the count
-        self.cnt += 1;
+        // The slot is reused, the store it used to hold is forgotten.
+        let bit = 1 << index;
+        for store in &mut self.stores {
+            store.mo_before &= !bit;
 
-        // The modification order is initialized to the thread's current
-        // causality. All reads / writes that happen before this store are
-        // ordered before the store.
-        let happens_before = threads.active().causality;
-
-        // Starting with the thread's causality covers WRITE-WRITE coherence
-        let mut modification_order = happens_before;
-
-        // Apply coherence rules
-        for i in 0..self.stores.len() {
-            // READ-WRITE coherence
-            if self.stores[i].first_seen.is_seen_by_current(threads) {
-                let mo = self.stores[i].modification_order;
-                modification_order.join(&mo);
+            if store.rmw_source == Some(index as u8) {
+                store.rmw_source = None;
             }
         }
+
+        let happens_before = threads.active().causality;
+
+        // Apply coherence rules. Every store that happens before this store
+        // (WRITE-WRITE coherence) or that was read by a load that happens
+        // before this store (READ-WRITE coherence) is ordered before it. A
+        // store counts as seen by the thread that stored it.
+        let mut mo_before = 0;
+
+        for i in 0..cmp::min(self.cnt as usize, self.stores.len()) {
+            if i != index && self.stores[i].first_seen.is_seen_by_current(threads) {
+                mo_before |= 1 << i;
+            }
+        }
+
+        // Increment the count
+        self.cnt += 1;
 
         sync.sync_store(threads, ordering);
 
@@ -491,11 +505,72 @@ impl State {
         self.stores[index] = Store {
             value,
             happens_before,
-            modification_order,
+            mo_before,
+            rmw_source: rmw_source.filter(|&i| i != index).map(|i| i as u8),
             sync,
             first_seen,
             seq_cst: is_seq_cst(ordering),
         };
+
+        self.close_modification_order();
+    }
+
+    /// Returns `true` if the store in slot `i` is ordered before the store in
+    /// slot `j`.
+    fn is_mo_before(&self, i: usize, j: usize) -> bool {
+        self.stores[j].mo_before & (1 << i) != 0
+    }
+
+    /// Restores the invariants of the modification order after new edges have
+    /// been added: the relation is transitive and nothing is ordered between
+    /// a rmw operation and the store it read from (RMW atomicity).
+    fn close_modification_order(&mut self) {
+        let len = cmp::min(self.cnt as usize, self.stores.len());
+
+        loop {
+            let mut changed = false;
+
+            for i in 0..len {
+                let mut before = self.stores[i].mo_before;
+
+                for j in 0..len {
+                    if before & (1 << j) != 0 {
+                        before |= self.stores[j].mo_before;
+                    }
+                }
+
+                if let Some(source) = self.stores[i].rmw_source {
+                    // Everything else ordered before the rmw is ordered
+                    // before its source.
+                    let source = source as usize;
+                    let rest = before & !(1 << source) & !(1 << i);
+
+                    if self.stores[source].mo_before | rest != self.stores[source].mo_before {
+                        self.stores[source].mo_before |= rest;
+                        changed = true;
+                    }
+                }
+
+                for j in 0..len {
+                    // Everything else ordered after the source of a rmw is
+                    // ordered after the rmw.
+                    if let Some(source) = self.stores[j].rmw_source {
+                        if i != j && i != source as usize && before & (1 << source) != 0 {
+                            before |= 1 << j;
+                        }
+                    }
+                }
+
+                if before != self.stores[i].mo_before {
+                    self.stores[i].mo_before = before;
+                    changed = true;
+                }
+            }
+
+            if !changed {
+                break;
+            }
+        }
     }
 
     fn rmw<E>(
@@ -533,7 +608,7 @@ impl State {
                 // the load. This is our (hacky) way to establish a release
                 // sequence.
                 let sync = self.stores[index].sync;
-                self.store(threads, sync, next, success);
+                self.store(threads, sync, next, success, Some(index));
 
                 Ok(prev)
             }
@@ -545,24 +620,23 @@ impl State {
     }
 
     fn apply_load_coherence(&mut self, threads: &mut thread::Set, index: usize) {
-        for i in 0..self.stores.len() {
+        for i in 0..cmp::min(self.cnt as usize, self.stores.len()) {
             // Skip if the is current.
             if index == i {
                 continue;
             }
 
-            // READ-READ coherence
-            if self.stores[i].first_seen.is_seen_by_current(threads) {
-                let mo = self.stores[i].modification_order;
-                self.stores[index].modification_order.join(&mo);
-            }
-
-            // WRITE-READ coherence
-            if self.stores[i].happens_before < threads.active().causality {
-                let mo = self.stores[i].modification_order;
-                self.stores[index].modification_order.join(&mo);
+            // READ-READ coherence and WRITE-READ coherence: the stores already
+            // read or stored in the current thread's causality are ordered
+            // before the store being read.
+            if self.stores[i].first_seen.is_seen_by_current(threads)
+                || self.stores[i].happens_before < threads.active().causality
+            {
+                self.stores[index].mo_before |= 1 << i;
             }
         }
+
+        self.close_modification_order();
     }
 
     /// Track an atomic load
@@ -745,13 +819,7 @@ impl State {
                     continue;
                 }
 
-                let mo_i = store_i.modification_order;
-                let mo_j = store_j.modification_order;
-
-                // TODO: this sometimes fails
-                assert_ne!(mo_i, mo_j);
-
-                if mo_i < mo_j {
+                if self.is_mo_before(i, j) {
                     if store_j.first_seen.is_seen_by_current(threads) {
                         // Store `j` is newer, so don't store the current one.
                         continue 'outer;
@@ -785,26 +853,17 @@ impl State {
         // Unlike `match_load_to_stores`, rmw operations only load "newest"
         // stores, in terms of modification order.
         'outer: for i in 0..self.stores.len() {
-            let store_i = &self.stores[i];
-
             if i >= cnt {
                 // Not a real store
                 continue;
             }
 
             for j in 0..self.stores.len() {
-                let store_j = &self.stores[j];
-
                 if i == j || j >= cnt {
                     continue;
                 }
 
-                let mo_i = store_i.modification_order;
-                let mo_j = store_j.modification_order;
-
-                assert_ne!(mo_i, mo_j);
-
-                if mo_i < mo_j {
+                if self.is_mo_before(i, j) {
                     // There is a newer store.
                     continue 'outer;
                 }
@@ -855,7 +914,8 @@ impl Default for Store {
         Store {
             value: 0,
             happens_before: VersionVec::new(),
-            modification_order: VersionVec::new(),
+            mo_before: 0,
+            rmw_source: None,
             sync: Synchronize::new(),
             first_seen: FirstSeen::new(),
             seq_cst: false,
